@@ -265,8 +265,9 @@ def chargeLoop (ops : Ops α B) (env : Env α) (v : VehicleS α B) (ts : List (T
         let oldSoc := ops.soc st.sim
         let (power, sim) ← naivePass ops st.cs v.minChargingPower ts same st.power st.sim
         let (power, sim) ← (if desired ≤ ops.soc sim then
+            -- repaired (fixes/BM3.diff): `max_power = cs.max_power - min(cs.current_power, 0)` (pinned: `cs.max_power`)
             bisect ops env.eps st.cs v.minChargingPower ts same oldSoc desired bisectFuel 0
-              st.cs.maxPower false power sim
+              (st.cs.maxPower - pymin st.cs.currentPower 0) false power sim
           else pure (power, sim))
         let st := { st with sortedIdx := next, power := power, sim := sim }
         match power.head? with
